@@ -29,6 +29,9 @@ type Work struct {
 	// ViaGenerator: the history goes through generator.Generator.Generate (one Generator for all
 	// generations): the first party is the backend, the others are SDK plugins
 	ViaGenerator bool `json:"via_generator,omitempty"`
+	// Fresh: in the second generation the parties hand in newly built objects that say the same (the
+	// same command run again by the host), not the objects of the first generation
+	Fresh bool `json:"fresh,omitempty"`
 }
 
 // RespFile is one file of the assembled output.
